@@ -26,13 +26,14 @@ import (
 )
 
 type Req struct {
-	ID    int     `json:"id"`
-	Kind  string  `json:"kind"` // call | op | tpl
-	Fn    string  `json:"fn,omitempty"`
-	Args  []VSpec `json:"args,omitempty"`
-	Tpl   string  `json:"tpl,omitempty"`
-	Full  bool    `json:"full,omitempty"` // return the whole rendered result (correspondence cases)
-	Args2 []VSpec `json:"args2,omitempty"`
+	ID    int      `json:"id"`
+	Kind  string   `json:"kind"` // call | op | tpl
+	Fn    string   `json:"fn,omitempty"`
+	Args  []VSpec  `json:"args,omitempty"`
+	Tpl   string   `json:"tpl,omitempty"`
+	Full  bool     `json:"full,omitempty"` // return the whole rendered result (correspondence cases)
+	Args2 []VSpec  `json:"args2,omitempty"`
+	Env   *EnvSpec `json:"env,omitempty"`
 }
 
 // Out is what one entry point did.
@@ -140,6 +141,12 @@ func newWorkerState() *workerState {
 
 func (w *workerState) handle(req *Req) Resp {
 	resp := Resp{ID: req.ID}
+	if req.Env != nil {
+		// calls, operators and the Evaluator entry points run in the requested environment
+		saved := w.env
+		w.env = req.Env.build()
+		defer func() { w.env = saved }()
+	}
 	switch req.Kind {
 	case "call":
 		resp.Out = append(resp.Out, guarded(func(o *Out) {
